@@ -125,6 +125,29 @@ fn make_handler(node: &Arc<Node>, proto: u32, peer_id: [u8; 33], dbid: u64) -> C
 fn cp_secret(n: u64) -> [u8; 32] {
     build_commitment_secret(&CP_SEED, INITIAL - n)
 }
+/// a secret outside the counterparty's derivation tree: its point can be signed for and it
+/// matches that point on revocation, but it does not chain with the tree's secrets
+fn rogue_secret(n: u64) -> [u8; 32] {
+    let mut s = [0x77u8; 32];
+    s[31] = n as u8;
+    s[30] = (n >> 8) as u8;
+    s
+}
+/// secret behind a point code (tree number n: n; rogue n: 3000+n)
+fn secret_of_code(code: u64) -> [u8; 32] {
+    if code >= 3000 { rogue_secret(code - 3000) } else { cp_secret(code) }
+}
+fn point_code(secp: &Secp256k1<lightning_signer::bitcoin::secp256k1::All>, p: &PublicKey) -> Option<u64> {
+    for n in 0..40u64 {
+        if point_of(secp, &cp_secret(n)) == *p {
+            return Some(n);
+        }
+        if point_of(secp, &rogue_secret(n)) == *p {
+            return Some(3000 + n);
+        }
+    }
+    None
+}
 fn point_of(secp: &Secp256k1<lightning_signer::bitcoin::secp256k1::All>, s: &[u8; 32]) -> PublicKey {
     PublicKey::from_secret_key(secp, &SecretKey::from_slice(s).unwrap())
 }
@@ -330,14 +353,10 @@ fn opt_id(o: &Option<CommitmentInfo2>, holder: bool) -> String {
 fn point_id(secp: &Secp256k1<lightning_signer::bitcoin::secp256k1::All>, p: &Option<PublicKey>) -> String {
     match p {
         None => "None".into(),
-        Some(p) => {
-            for n in 0..40u64 {
-                if point_of(secp, &cp_secret(n)) == *p {
-                    return format!("Some {}", 1000 + n);
-                }
-            }
-            "Some 9999".into()
-        }
+        Some(p) => match point_code(secp, p) {
+            Some(c) => format!("Some {}", 1000 + c),
+            None => "Some 9999".into(),
+        },
     }
 }
 
@@ -610,8 +629,11 @@ fn do_op(sys: &mut Sys, rng: &mut Rng, extremes: bool, script: Option<(u64, u64)
         53..=69 => {
             let n = near(rng, next_c);
             let decoy = !guided && rng.chance(1, 6);
-            let pt_num = if decoy { n.wrapping_add(7) % 40 } else { n % 40 };
-            let pt = point_of(&sys.secp, &cp_secret(pt_num));
+            // a point from outside the derivation tree (also on the protocol-guided path: the
+            // signer cannot tell until the revocation)
+            let rogue = !decoy && rng.chance(1, 7);
+            let pt_num = if decoy { n.wrapping_add(7) % 40 } else if rogue { 3000 + n % 40 } else { n % 40 };
+            let pt = point_of(&sys.secp, &secret_of_code(pt_num));
             let pt_id = 1000 + pt_num;
             let id = if n == 0 { rng.below(3) } else { 4 + rng.below(4) };
             let id = if rng.chance(1, 10) { 9 } else { id };
@@ -639,13 +661,25 @@ fn do_op(sys: &mut Sys, rng: &mut Rng, extremes: bool, script: Option<(u64, u64)
             let rn = near(rng, next_r);
             let variant = if guided { 7 } else { rng.below(8) };
             // whose secret do we present
+            // the secret behind the point that was signed for rn, if the channel still has it
+            let signed_code = est.as_ref().and_then(|e| {
+                let p = if rn.wrapping_add(1) == e.next_counterparty_commit_num {
+                    e.current_counterparty_point
+                } else if rn.wrapping_add(2) == e.next_counterparty_commit_num {
+                    e.previous_counterparty_point
+                } else {
+                    None
+                };
+                p.and_then(|p| point_code(&sys.secp, &p))
+            });
             let sec_num = match variant {
                 0 => rn.wrapping_add(7) % 40, // decoy point
                 1 => rn.wrapping_add(1) % 40, // future
                 2 => rn.wrapping_sub(1) % 40, // stale
-                _ => rn % 40,
+                3 => 3000 + rn % 40,          // rogue
+                _ => signed_code.unwrap_or(rn % 40),
             };
-            let secret = cp_secret(sec_num);
+            let secret = secret_of_code(sec_num);
             let sk = SecretKey::from_slice(&secret).unwrap();
             // oracle: would the real store accept this secret at this index (on a copy)
             let chains = est
@@ -791,6 +825,7 @@ struct Monitor {
     disclosed: Vec<u64>,
     hsigned: Vec<u64>,
     cp_signed: Vec<(u64, u64, u64)>,
+    cp_revoked: Vec<u64>, // numbers revoked by a secret the signer accepted
     violations: Vec<String>,
     closed_disclosed_snapshot: Option<Vec<u64>>,
 }
@@ -922,6 +957,10 @@ fn run(args: &Args) {
                         }
                     }
                 }
+                // C03, on the monitor's own record of accepted revocations (not the signer's counter)
+                if warn.is_empty() && n >= 2 && !mon.cp_signed.iter().any(|(m, _, _)| *m == n) && !mon.cp_revoked.contains(&(n - 2)) {
+                    mon.violations.push(format!("C03: signed counterparty commitment {} although {} was never revoked by an accepted secret", n, n - 2));
+                }
                 mon.cp_signed.push((n, p, c));
             }
             if let Some(arr) = j.as_array() {
@@ -933,6 +972,7 @@ fn run(args: &Args) {
                         Some((_, p, _)) if *p == 1000 + sec => {}
                         _ => mon.violations.push(format!("C03: accepted revocation of {} with the secret of point {}", rn, 1000 + sec)),
                     }
+                    mon.cp_revoked.push(rn);
                 }
             }
             ops.push(op);
